@@ -4,6 +4,7 @@ import MiniconfVerif.Model.TreeDriver
 import MiniconfVerif.Model.ValueDriver
 import MiniconfVerif.Model.MqttDriver
 import MiniconfVerif.Model.PyDriver
+import MiniconfVerif.Model.Hyp
 
 open MiniconfVerif
 
@@ -42,6 +43,25 @@ def handle (st : DState) (line : String) : DState × String :=
         match tid.toNat?, sid.toNat?, ValueDriver.parseTree rest with
         | some tid, some sid, some (t, []) => ({ st with trees := st.trees.push (tid, sid, t) }, s!"{id} decl")
         | _, _, _ => (st, s!"{id} bad-op")
+      | _ => (st, s!"{id} bad-op")
+    | "Tw" =>
+      -- do the hypotheses of the type-level theorems hold for this corpus type?
+      match args with
+      | tid :: _ =>
+        match tid.toNat?.bind st.schema? with
+        | some s => (st, s!"{id} wf={if s.wfB then 1 else 0} small={if s.smallB then 1 else 0} fits={if s.fitsB then 1 else 0}")
+        | none => (st, s!"{id} bad-op")
+      | _ => (st, s!"{id} bad-op")
+    | "Vw" =>
+      -- … and of the value-level theorems for this instance?
+      match args with
+      | tid :: sid :: _ =>
+        match tid.toNat?, sid.toNat? with
+        | some tid, some sid =>
+          match st.tree? tid sid with
+          | some t => (st, s!"{id} wf={if t.wfB then 1 else 0} fits={if t.fitsB then 1 else 0}")
+          | none => (st, s!"{id} bad-op")
+        | _, _ => (st, s!"{id} bad-op")
       | _ => (st, s!"{id} bad-op")
     | "tv" =>
       match args with
